@@ -713,3 +713,63 @@ V("C09-default-plain", "C09", "plaintext default stored unhashed", SEC,
 V("C09-encoding-differs", "C09", "challenge encodes text as latin-1", SEC,
   "            plaintext = plaintext.encode()\n\n        challenge =", "            plaintext = plaintext.encode(\"latin-1\")\n\n        challenge =",
   expect_rule="hash-input.encoding")
+
+# ------------------------------------------------------------------------------------------ C05
+V("C05-max-truthiness", "C05", "NumberField max guarded by truthiness (max=0 ignored)", NUM,
+  "        if self.max is not None and num > self.max:", "        if self.max and num > self.max:", expect_rule="bound.none-guard")
+V("C05-prefix-truthiness", "C05", "D6 re-introduced", NET,
+  "        if self.max_prefix_len is not None and net.prefixlen > self.max_prefix_len:", "        if self.max_prefix_len and net.prefixlen > self.max_prefix_len:",
+  expect_rule="bound.none-guard")
+V("C05-min-exclusive", "C05", "min bound becomes exclusive", NUM,
+  "        if self.min is not None and num < self.min:", "        if self.min is not None and num <= self.min:", expect_rule="bound.strict-comparator")
+V("C05-maxlen-exclusive", "C05", "max_len bound becomes exclusive", STR,
+  "        if self.max_len is not None and len(value) > self.max_len:", "        if self.max_len is not None and len(value) >= self.max_len:",
+  expect_rule="bound.strict-comparator")
+V("C05-strip-after-len", "C05", "strip applied after the length checks", STR, edits=[
+    (STR, """        if self.transform_strip:
+            if isinstance(self.transform_strip, str):
+                value = value.strip(self.transform_strip)
+            else:
+                value = value.strip()
+
+        if self.required and not value:""", """        if self.required and not value:"""),
+    (STR, """        if self.regex and not self.regex.match(value):""", """        if self.transform_strip:
+            if isinstance(self.transform_strip, str):
+                value = value.strip(self.transform_strip)
+            else:
+                value = value.strip()
+
+        if self.regex and not self.regex.match(value):""")], expect_rule="order.normalise-then-check")
+V("C05-case-after-choices", "C05", "case folding applied after the choices check", STR, edits=[
+    (STR, """        if self.transform_case:
+            value = value.lower() if self.transform_case == "lower" else value.upper()
+
+""", ""),
+    (STR, """            raise ValueError("value is not a valid choice" + postfix)
+
+        return value""", """            raise ValueError("value is not a valid choice" + postfix)
+
+        if self.transform_case:
+            value = value.lower() if self.transform_case == "lower" else value.upper()
+
+        return value""")], expect_rule="order.normalise-then-check")
+V("C05-hex-read-as-b64", "C05", "hex written, base64 read", BYTES,
+  "                ret = bytes.fromhex(value)", "                ret = base64.b64decode(value)", expect_rule="codec.bytes.inverse-pair")
+V("C05-bool-accepts-as-number", "C05", "NumberField accepts bool", NUM,
+  "        if not isinstance(value, (str, int, float, self.type_cls)) or isinstance(\n            value, bool\n        ):",
+  "        if not isinstance(value, (str, int, float, self.type_cls)):", expect_rule="number.rejects-bool")
+V("C05-bounds-on-input", "C05", "bounds compared with the unconverted input", NUM,
+  "        if self.min is not None and num < self.min:", "        if self.min is not None and not isinstance(value, str) and value < self.min:",
+  expect_rule="number.bounds-on-converted")
+V("C05-bool-token-overlap", "C05", "'0' also listed as a true token", BOOL,
+  "    TRUE_VALUES = (\"t\", \"true\", \"1\", \"on\", \"yes\", \"y\")", "    TRUE_VALUES = (\"t\", \"true\", \"1\", \"0\", \"on\", \"yes\", \"y\")",
+  expect_rule="bool.tables-disjoint")
+V("C05-bytes-returns-str", "C05", "BytesField returns text for bytes input (rejected when validated again? no: str accepted) -- returns hex text", BYTES,
+  "        if isinstance(value, bytes):\n            return value\n", "        if isinstance(value, bytes):\n            return bytearray(value)\n",
+  expect_rule="idempotence.accepts-own-result")
+V("C05-port-zero", "C05", "PortField allows port 0", NET,
+  "        kwargs.setdefault(\"min\", 1)", "        kwargs.setdefault(\"min\", 0)", expect_rule="port.range")
+V("C05-benign-reversed-compare", "C05", "bound comparison written with swapped operands", NUM, expect="silent",
+  old="        if self.max is not None and num > self.max:", new="        if self.max is not None and self.max < num:")
+V("C05-benign-is-none-form", "C05", "guard written as `not (x is None)`", NUM, expect="silent",
+  old="        if self.min is not None and num < self.min:", new="        if not (self.min is None) and num < self.min:")
